@@ -23,7 +23,7 @@ From Anthem Require Import Base.ISet Syntax.Fol Syntax.Asp Sem.Domain Sem.Sat
   Model.Apply Model.SimplIntuit Model.SimplClassic Model.Problem Model.Outline Model.Strong Model.External
   Model.Tightness Model.PrivRec Model.TauStar Model.Completion Model.StrategyCls Model.ExternalFull
   Proofs.DecomposeOk Proofs.StrongOk Proofs.ExternalOk Proofs.C02Ok
-  Proofs.HeadPred Proofs.HeadPredPipeline Proofs.C19Ext Proofs.C19ExtFull Proofs.ExtFuel.
+  Proofs.HeadPred Proofs.HeadPredPipeline Proofs.C19Ext Proofs.C19ExtFull Proofs.ExtFuel Proofs.ParserImagePipeline Proofs.NoPanic.
 Open Scope string_scope.
 Open Scope list_scope.
 
@@ -239,6 +239,37 @@ Proof.
       eapply Nat.le_trans; try exact Hm; [apply Nat.le_max_l|apply Nat.le_max_r].
 Qed.
 Print Assumptions C19_external_same_claim_eventually.
+
+(* ---------------- 5. where XPanic can come from (audit A8 b) ---------------- *)
+(* a `theory_translate` (tau*, replace_placeholders, completion, classic fixpoint) panics only by
+   the usize overflow of tau* (F11): completion never refuses a tau* theory with placeholders
+   replaced, and the classic rewrites never panic on completed tau* theories (parser image) *)
+Theorem C19_external_translate_panic_only_overflow :
+  forall (fuel : nat) (t : ext_task) (m : placeholders) (p : program),
+    program_vars_named p -> translate_status fuel t m p = TPanic -> TauStar.tau_star p = None.
+Proof. exact translate_status_panic_only_overflow. Qed.
+Print Assumptions C19_external_translate_panic_only_overflow.
+
+(* XPanic of the full model = F11 on one of the two programs, or a panic of the assembly AFTER the
+   translations (External.external_decompose: the proof-outline and role handling, C13 / C11) *)
+Theorem C19_external_panic_classes :
+  forall (fuel : nat) (t : ext_task),
+    program_vars_named (et_program t) ->
+    (forall L, et_specification t = inl L -> program_vars_named L) ->
+    external_decompose_full fuel t = XPanic ->
+    TauStar.tau_star (et_program t) = None \/
+    (exists L, et_specification t = inl L /\ TauStar.tau_star L = None) \/
+    external_decompose_total fuel t = Panic.
+Proof. exact external_panic_classes. Qed.
+Print Assumptions C19_external_panic_classes.
+
+(* the `expect("tau_star did not create a completable theory")` of the production caller
+   tau_star().replace_placeholders(..).completion(..) is unreachable *)
+Theorem C19_external_completion_expect_unreachable :
+  forall (P : program) (G : theory) (m : placeholders) (ins : list pred),
+    TauStar.tau_star P = Some G -> exists D, completion (rp_theory m G) ins = Some D.
+Proof. exact tau_star_rp_completable. Qed.
+Print Assumptions C19_external_completion_expect_unreachable.
 
 (* ---------------- non-vacuity ---------------- *)
 Definition aux : formula := FAtomic (AAtom "aux" []).
